@@ -170,6 +170,8 @@ def run_tree(case) -> dict:
                         t.start()
                         inside.wait(10)
                     return None
+            if case.get("mode") == "referents":
+                stackscope.lowlevel.set_trickery_enabled(False)
             try:
                 with warnings.catch_warnings(record=True) as w:
                     warnings.simplefilter("always")
@@ -180,6 +182,7 @@ def run_tree(case) -> dict:
                     stub = stackscope.extract(root, recurse_child_tasks=False)
             finally:
                 go_on.set()
+                stackscope.lowlevel.set_trickery_enabled(None)
             res["warnings"] = [str(x.message)[:200] for x in w]
             res["problems"] = compare(st, root, full=True) + compare(stub, root, full=False)
             res["shape"] = shape(st)
@@ -254,10 +257,23 @@ def run_hops(case) -> dict:
     res: Dict[str, Any] = {}
     release = threading.Event()
 
+    gate = threading.Lock()
+    gate.acquire()
+
+    class Guard:
+        def __enter__(s):
+            return s
+
+        def __exit__(s, *a):
+            return False
+
     def mk_sync(k):
         def sync_fn():
             if k == 0:
-                release.wait(10)
+                # blocked in a C-level call that is the last instruction of a with block's protected range
+                args = (True, 10)
+                with Guard():
+                    return gate.acquire(*args)
             else:
                 trio.from_thread.run(mk_async(k - 1))
         sync_fn.__code__ = sync_fn.__code__.replace(co_name=f"sync{k}")
@@ -283,7 +299,11 @@ def run_hops(case) -> dict:
             res["warnings"] = [str(x.message)[:200] for x in w]
             res["error"] = repr(st.error) if st.error is not None else None
             res["visible"] = [f.funcname for f in st.frames if not f.hide]
+            inner = [f for f in st.frames if f.funcname == "sync0"]
+            if m > 0 and (len(inner) != 1 or [type(c.obj).__name__ for c in inner[0].contexts] != ["Guard"]):
+                res["error"] = (res.get("error") or "") + f" the worker thread's innermost frame reports contexts {[[type(c.obj).__name__ for c in f.contexts] for f in inner]}, it holds one Guard"
             release.set()
+            gate.release()
             outer.cancel_scope.cancel()
 
     trio.run(main)
@@ -487,6 +507,10 @@ class C14(PropCheck):
         d = 2 if tier == "quick" else 3
         for i in range(n):
             out.append({"k": "tree", "tree": rand_tree(rng, rng.randint(1, d), rng.randint(1, d)), "concurrent": i % 4 == 3})
+            if i % 4 == 1:
+                # the same when the bytecode analysis is unavailable (referents fallback): nurseries are found through the
+                # coroutine that owns each frame
+                out[-1]["mode"] = "referents"
         for plan in ("same", "cross", "remote"):
             for m in ((1, 2) if tier == "quick" else (1, 2, 3)):
                 out.append({"k": "two_runs", "plan": plan, "hops": m, "end_in_thread": (m + len(plan)) % 2 == 0})
